@@ -4,7 +4,8 @@ package main
 //
 //   machine : Go uint32/uint64/byte  ->  Lean UInt32/UInt64/UInt8 (identical wrap-around)
 //   exact   : the same expression tree over Nat (unbounded); `-` is truncated subtraction,
-//             `>> k` is `/ 2^k`, `<< k` is `* 2^k`, `& (2^k-1)` is `% 2^k`, conversions vanish.
+//             `>> k` is `/ 2^k`, `<< k` is `* 2^k`, `& (2^k-1)` is `% 2^k` (the powers are written
+//             as decimal numerals), conversions vanish.
 //
 // "no overflow / underflow / truncation" is then literally `toNat (f x) = f_exact (toNat x)`.
 
@@ -207,6 +208,11 @@ func maskBits(v *big.Int) (int, bool) {
 	return 0, false
 }
 
+// pow2 is the numeral 2^k (written out: elaborating `2 ^ k` inside long let-chains is slow).
+func pow2(k int) string {
+	return new(big.Int).Lsh(big.NewInt(1), uint(k)).String()
+}
+
 // exact renders the unbounded Nat twin.
 func exact(e Expr) string {
 	switch x := e.(type) {
@@ -218,21 +224,21 @@ func exact(e Expr) string {
 		if x.Op == "&" {
 			if l, ok := x.R.(Lit); ok {
 				if k, ok := maskBits(l.V); ok {
-					return fmt.Sprintf("%s %% 2 ^ %d", par(x.L, exact(x.L)), k)
+					return fmt.Sprintf("%s %% %s", par(x.L, exact(x.L)), pow2(k))
 				}
 			}
 			if l, ok := x.L.(Lit); ok {
 				if k, ok := maskBits(l.V); ok {
-					return fmt.Sprintf("%s %% 2 ^ %d", par(x.R, exact(x.R)), k)
+					return fmt.Sprintf("%s %% %s", par(x.R, exact(x.R)), pow2(k))
 				}
 			}
 		}
 		return par(x.L, exact(x.L)) + " " + machOp[x.Op] + " " + par(x.R, exact(x.R))
 	case Shift:
 		if x.Left {
-			return fmt.Sprintf("%s * 2 ^ %d", par(x.X, exact(x.X)), x.K)
+			return fmt.Sprintf("%s * %s", par(x.X, exact(x.X)), pow2(x.K))
 		}
-		return fmt.Sprintf("%s / 2 ^ %d", par(x.X, exact(x.X)), x.K)
+		return fmt.Sprintf("%s / %s", par(x.X, exact(x.X)), pow2(x.K))
 	case Conv:
 		return exact(x.X)
 	case Cmp:
